@@ -240,6 +240,9 @@ def check(ctx):
     for st, env in ctx.sites(f, "$F.set_result($*A)"):
         fut = u(env["F"])
         ctx.require_at("R10-b", f, st, [[f"not {fut}.cancelled()"]], instance="permit handed only to a live waiter")
+        if not isinstance(env["F"], ast.Name):
+            # `self._waiters.popleft().set_result(None)`: the waiter is woken without a liveness test on it (reported above)
+            continue
         deq = ctx.sites(f, f"{fut} = self._waiters.popleft()")
         ctx.ob("R10-b", f, "woken waiter was dequeued from the head", bool(deq),
                detail="" if deq else f"the future woken in release (`{fut}`) is not the one dequeued from _waiters", node=st, by=("popleft",))
